@@ -229,6 +229,26 @@ def cross_section(P, rep, rule="EXPR.crosssection"):
     else:
         rep.violation(rule, "cross-section direction", W.nloc(blk), W.qn, str(got), "expected (cs1 - cs0)/|cs1 - cs0|", key=rule + "|direction",
                       witness="cross section not through the origin; compare 2D and 3D answers at x > 0")
+    # the direction is written by straight-line statements of that block only (what the evaluation above followed)
+    cond_writes = []
+    for n in W.walk(blk["c"][1]):
+        tgt = None
+        if n.get("k") in ("BinaryOperator", "CompoundAssignOperator", "CXXOperatorCallExpr") and n.get("op") in norm.ASSIGN_OPS:
+            tgt = n["c"][0]
+        if tgt is None:
+            continue
+        if not any(y.get("k") == "MemberExpr" and astq.is_this_field(P, y, "surface_coord_conversions") for y in W.walk(tgt)):
+            continue
+        for a in W.ancestors(n):
+            if a is blk:
+                break
+            if a.get("k") in ("IfStmt", "ForStmt", "WhileStmt", "CXXForRangeStmt", "SwitchStmt", "ConditionalOperator"):
+                cond_writes.append(n)
+                break
+    if cond_writes:
+        rep.violation(rule, "the cross-section direction is adjusted conditionally: %s" % norm.render(P, cond_writes[0])[:70], W.nloc(cond_writes[0]), W.qn,
+                      norm.render(P, cond_writes[0])[:140], "for the sections that meet the condition the direction is no longer (cs1 - cs0)/|cs1 - cs0|",
+                      key=rule + "|direction-conditional", witness="a cross section for which the condition holds (for instance one pointing along -x)")
     # dim = 2 iff the cross section entry exists
     c = astq.resolve_alias(P, W, blk["c"][0])
     okc = False
@@ -388,8 +408,19 @@ def cross_section(P, rep, rule="EXPR.crosssection"):
         try:
             B2.run([s for s in pre if s.get("k") in ("DeclStmt", "IfStmt")])
         except AnalysisBroken as e:
-            rep.unknown(rule, str(e))
-            continue
+            if "undecided branch" not in str(e):
+                rep.unknown(rule, str(e))
+                continue
+            # a condition the documented map does not know: the map is piecewise. Evaluate the piece where every unknown
+            # condition holds; it must still be the documented map (the piece where none holds is the evaluation without them)
+            forced = Block(P, F2, choose=lambda c, ch=choose: (ch(c) if ch(c) is not None else True), hook=hook2)
+            try:
+                forced.run([s for s in pre if s.get("k") in ("DeclStmt", "IfStmt")])
+            except AnalysisBroken as e2:
+                rep.unknown(rule, str(e2))
+                continue
+            B2 = forced
+            piecewise = str(e)
         # which variable is passed on?
         a0 = sc(call["c"][1])
         src = None
